@@ -359,9 +359,15 @@ OPTIONS:
 			opt.OptionLength = 1
 		case TCPOptionKindMultipathTCP:
 			tcp.Multipath = true
+			if len(data) < 2 {
+				return fmt.Errorf("Invalid TCP option length. Length %d less than 2", len(data))
+			}
 			opt.OptionLength = data[1]
-			if opt.OptionLength <= 0 {
+			if opt.OptionLength < 3 {
+				// kind, length and the subtype byte are the minimum
 				return fmt.Errorf("MPTCP bad option length %d", opt.OptionLength)
+			} else if int(opt.OptionLength) > len(data) {
+				return fmt.Errorf("MPTCP option length %d exceeds remaining %d bytes", opt.OptionLength, len(data))
 			}
 			opt.OptionMultipath = MPTCPSubtype(data[2] >> 4)
 			switch opt.OptionMultipath {
